@@ -114,8 +114,11 @@ def sponge(db, rep):
     callers = sorted(p for p, f in db.fns.items() if p.startswith(TRANSCRIPT + '::') and f.has_mir and
                      any((t['f'].get('resolved') or '').startswith('starknet_crypto::poseidon_hash') for _, t in f.calls()))
     prim = sorted([T_SQUEEZE, T_ABSORB1, T_ABSORBV])
-    rep.ob('C08.sponge', 'poseidon-only-in-primitives', callers == prim,
-           f'Transcript methods calling Poseidon: {[c.split("::")[-1] for c in callers]} (expected exactly the three primitives)',
+    # no method besides the three primitives hashes; the squeeze does, and at least one absorb primitive does (the
+    # other may delegate to it -- the digest/counter rules above hold for each of them either way)
+    okp = set(callers) <= set(prim) and T_SQUEEZE in callers and bool({T_ABSORB1, T_ABSORBV} & set(callers))
+    rep.ob('C08.sponge', 'poseidon-only-in-primitives', okp,
+           f'Transcript methods calling Poseidon: {[c.split("::")[-1] for c in callers]} (allowed: only the three primitives)',
            'crates/transcript/src/transcript.rs', cfg)
     # who-may-write / who-may-construct
     writers, makers = set(), set()
